@@ -6,6 +6,7 @@
 (*         /w/out        the output directory given by the user            *)
 (*         /w/sent       a sentinel file outside it                        *)
 (*         /w/sdir, /w/sdir/f   a sentinel directory and file outside it   *)
+(*         /w/out2       a sibling directory with the output dir's prefix  *)
 (* fs maps an absolute path (sequence of names) to a node                  *)
 (*   [t |-> "dir"] | [t |-> "file", c |-> content] | [t |-> "link", to |-> target]*)
 (* target = [abs, segs]; segs may contain "..".                            *)
@@ -33,6 +34,7 @@ vars == <<fs, todo, aborted, arch, pre>>
 Out == <<"w", "out">>
 Base == (<<"w">> :> [t |-> "dir"]) @@ (Out :> [t |-> "dir"]) @@ (<<"w", "sent">> :> [t |-> "file", c |-> "SENTINEL"])
         @@ (<<"w", "sdir">> :> [t |-> "dir"]) @@ (<<"w", "sdir", "f">> :> [t |-> "file", c |-> "SENTINEL2"])
+        @@ (<<"w", "out2">> :> [t |-> "dir"])      \* a sibling whose name starts with the output directory's name
 
 IsUnder(p, r) == Len(p) >= Len(r) /\ SubSeq(p, 1, Len(r)) = r
 
